@@ -50,5 +50,9 @@ Lemma c15_srcfacts :
   c15_fact_oci_last &&
   c15_fact_oci_sort &&
   c15_fact_oci_readonly_tags &&
-  c15_fact_oci_store_tags = true.
+  c15_fact_oci_store_tags &&
+  c15_fact_collect_tags &&
+  c15_fact_collect_repos &&
+  c15_fact_collect_referrers &&
+  c15_fact_collect_predecessors = true.
 Proof. reflexivity. Qed.
